@@ -216,6 +216,15 @@ func (p *PX) term(v ssa.Value, fr *pxFrame, st *pxState) *Term {
 				return t
 			}
 			if fa, ok := x.X.(*ssa.FieldAddr); ok {
+				// a field of a local struct: the value last stored there on this path
+				// (directly, or as a component of a whole-struct assignment), unless the
+				// field may have been written since through another pointer
+				if al, isLocal := fa.X.(*ssa.Alloc); isLocal {
+					fk := fmt.Sprintf("%s.%d", p.reg(fr, al), fa.Field)
+					if t, ok := st.vals[fk]; ok && p.fieldVerKey(fieldID(fa), st) == p.localFieldVer(fk, st) {
+						return t
+					}
+				}
 				key := p.fieldLoadKey(fa, fr, st)
 				if t, ok := st.vals["mem:"+key]; ok {
 					return t
@@ -556,14 +565,20 @@ func (p *PX) instrs(fr *pxFrame, b *ssa.BasicBlock, from int, st *pxState, k pxC
 		case *ssa.Store:
 			// local variable cells and symbolic byte sequences
 			if al, ok := x.Addr.(*ssa.Alloc); ok {
-				st.vals[p.reg(fr, al)+"*"] = p.term(x.Val, fr, st)
+				vt := p.term(x.Val, fr, st)
+				st.vals[p.reg(fr, al)+"*"] = vt
+				p.splitStruct(fr, al, vt, st)
 			}
 			if fa, ok := x.Addr.(*ssa.FieldAddr); ok {
 				vt := p.term(x.Val, fr, st)
-				if al, isLocal := fa.X.(*ssa.Alloc); isLocal {
-					st.vals[fmt.Sprintf("%s.%d", p.reg(fr, al), fa.Field)] = vt
-				}
 				p.bumpField(fieldID(fa), st)
+				if al, isLocal := fa.X.(*ssa.Alloc); isLocal {
+					fk := fmt.Sprintf("%s.%d", p.reg(fr, al), fa.Field)
+					st.vals[fk] = vt
+					st.vals[fk+"@"] = st.vals["ver:"+fieldID(fa)]
+					// the whole-struct value, if one was assigned, is no longer current
+					delete(st.vals, p.reg(fr, al)+"*")
+				}
 				if vt.K == TPure && vt.Name == "append" {
 					st.vals["mem:"+p.fieldLoadKey(fa, fr, st)] = vt
 				}
@@ -732,6 +747,50 @@ func (p *PX) fieldLoadKey(fa *ssa.FieldAddr, fr *pxFrame, st *pxState) string {
 		key += "@" + v.C.String()
 	}
 	return key + ">"
+}
+
+// fieldVerKey / localFieldVer: the version of a field id now, and the version at
+// which a local struct's field was last recorded.
+func (p *PX) fieldVerKey(id string, st *pxState) string {
+	if v, ok := st.vals["ver:"+id]; ok {
+		return v.key
+	}
+	return ""
+}
+
+func (p *PX) localFieldVer(fk string, st *pxState) string {
+	if v, ok := st.vals[fk+"@"]; ok && v != nil {
+		return v.key
+	}
+	return ""
+}
+
+// splitStruct: a struct value assigned as a whole to a local (`shape := shapeOf(n)`
+// with the helper stepped into, `*t = s`): its fields are the components of the
+// value, so that `shape.reserved` read afterwards is the term the helper computed.
+func (p *PX) splitStruct(fr *pxFrame, al *ssa.Alloc, vt *Term, st *pxState) {
+	pt, ok := al.Type().Underlying().(*types.Pointer)
+	if !ok {
+		return
+	}
+	stt, ok := pt.Elem().Underlying().(*types.Struct)
+	if !ok || stt.NumFields() == 0 || stt.NumFields() > 8 {
+		return
+	}
+	id := types.TypeString(pt.Elem(), nil)
+	for i := 0; i < stt.NumFields(); i++ {
+		var ft *Term
+		if vt.K == TPure && vt.Name == "struct" && len(vt.Args) == stt.NumFields() {
+			ft = vt.Args[i]
+		} else {
+			ft = &Term{K: TLeaf, T: stt.Field(i).Type(), key: fmt.Sprintf("fld(%s,.%d)", vt.key, i)}
+		}
+		fid := fmt.Sprintf("%s.%d", id, i)
+		p.bumpField(fid, st)
+		fk := fmt.Sprintf("%s.%d", p.reg(fr, al), i)
+		st.vals[fk] = ft
+		st.vals[fk+"@"] = st.vals["ver:"+fid]
+	}
 }
 
 func (p *PX) bumpField(id string, st *pxState) {
